@@ -202,6 +202,20 @@ func init() {
 					add("sizefield", b)
 				}
 			}
+			// 2a. exhaustive in every tier: all 65536 values of the size field and all 65536 values
+			// of the flags field on a compact frame (an int section, a string section, padding, a
+			// payload that starts with zeros and goes on with garbage)
+			frameS := c10Frame(0, 0x80000001, c10Info(3, nil, []c10Sec{
+				{kind: 2, ik: []int{0x0102}, iv: [][]byte{[]byte("v")}, cnt: -1},
+				{kind: 1, sk: [][2][]byte{{[]byte("k"), nil}}, cnt: -1}}), []byte{0, 0, 0, 0, 0, 0x11, 0, 0, 0, 0, 0, 0, 0x10, 0, 1, 0xAA})
+			for v := 0; v < 65536; v++ {
+				b := append([]byte(nil), frameS...)
+				binary.BigEndian.PutUint16(b[12:], uint16(v))
+				g.Add("sizefield-all", Ls(Bs(b), I(1+v%7)))
+				b = append([]byte(nil), frameS...)
+				binary.BigEndian.PutUint16(b[6:], uint16(v))
+				g.Add("flags-all", Ls(Bs(b), I(1+v%7)))
+			}
 			// 2b. bodies long enough for the mathematically declared size (or one byte short, or
 			// longer): 4*v bytes of zeros after a valid protocol id / transform count
 			fieldsBig := []int{1, 2, 3, 0x100, 0x3FFE, 0x3FFF, 0x4000, 0x4001, 0x4002, 0x4100, 0x7FFF, 0x8000, 0x8001, 0xC000, 0xC001, 0xFFFE, 0xFFFF}
@@ -228,7 +242,13 @@ func init() {
 						sec := []byte{0x10, 0, 1, 0, 1, byte(L >> 8), byte(L)}
 						body = Ls(I(1), Bs(sec), PatV(v, n-7))
 					}
-					g.Add("sizebig", Ls(Ls(I(1), Bs(head), body), I(1+g.R.Intn(5000))))
+					// a textually long but empty part keeps these lines (short to write, tens of
+					// kilobytes to evaluate) out of the in-kernel sample, which takes lines < 600 chars
+					filler := []V{I(1)}
+					for k := 0; k < 100 && v >= 0x100; k++ {
+						filler = append(filler, Ls(I(2), I(0), I(0)))
+					}
+					g.Add("sizebig", Ls(Ls(I(1), Bs(head), body, Ls(filler...)), I(1+g.R.Intn(5000))))
 				}
 			}
 			// 3. the flags field
